@@ -257,7 +257,7 @@ func c01ScansTestTombstone(c *Ctx, rule string) {
 // ---- C01.3 --------------------------------------------------------------------------------
 
 func c01RowIDs(c *Ctx, rule string) {
-	c.Rule(rule, "the row-id counter (fileStore.lastKey) is stored only as an increment in incrementLastKey (and loaded in open); BTree.insert derives the new key as getLastKey()+1, inserts under exactly that key and advances the counter on every success path")
+	c.Rule(rule, "the row-id counter (fileStore.lastKey) is stored only as an increment in incrementLastKey, loaded in open, or raised by redo to the key of the record it replays under a guard that shows the key to be larger; BTree.insert derives the new key as getLastKey()+1, inserts under exactly that key and advances the counter on every success path")
 	w := c.W
 	n := 0
 	for _, name := range w.SortedFuncNames() {
@@ -268,12 +268,18 @@ func c01RowIDs(c *Ctx, rule string) {
 		ast.Inspect(f.Decl.Body, func(x ast.Node) bool {
 			var tgt ast.Expr
 			kind := ""
+			raised := false
 			switch y := x.(type) {
 			case *ast.AssignStmt:
 				for _, l := range y.Lhs {
 					if sel, ok := ast.Unparen(l).(*ast.SelectorExpr); ok {
 						if v := fieldVar(f, sel); v != nil && v.Name() == "lastKey" && w.Locks().isStoreField(v) {
 							tgt, kind = l, "assign "+y.Tok.String()
+							// redo raises the counter to the key of the record it replays: allowed where a branch
+							// condition shows the new value to be larger — the counter still never moves backwards
+							if y.Tok == token.ASSIGN && len(y.Lhs) == 1 && len(y.Rhs) == 1 && f.Name == "storage.WALBatch.replay" && guardedRaise(f, f.Graph(), y) {
+								raised = true
+							}
 						}
 					}
 				}
@@ -297,8 +303,8 @@ func c01RowIDs(c *Ctx, rule string) {
 			}
 			n++
 			key := f.Name + "|store|lastKey|" + kind
-			ok := (f.Name == "storage.(*fileStore).incrementLastKey" && kind == "++") || (f.Name == "storage.(*fileStore).open" && kind == "&")
-			c.Check(ok, rule, key, tgt.Pos(), "counter store in its owner function", "fileStore.lastKey is stored ("+kind+") outside incrementLastKey/open: row ids can repeat or go backwards")
+			ok := (f.Name == "storage.(*fileStore).incrementLastKey" && kind == "++") || (f.Name == "storage.(*fileStore).open" && kind == "&") || raised
+			c.Check(ok, rule, key, tgt.Pos(), "counter store in its owner function (or a guarded raise to a replayed record's key)", "fileStore.lastKey is stored ("+kind+") outside incrementLastKey/open and not as a guarded raise in replay: row ids can repeat or go backwards")
 			return true
 		})
 	}
